@@ -119,6 +119,17 @@ func TestVerifC19(t *testing.T) {
 				add(fmt.Sprintf("bundle_%d.js", at), sb.Bytes())
 			}
 		}
+		// symbolic links to a license file, next to it and in a nested directory (a package's LICENSE
+		// linked to the top-level one): the tool reads what the link points to
+		{
+			for _, rel := range []string{"COPYING", "pkg/sub/LICENSE"} {
+				p := filepath.Join(dir, rel)
+				os.MkdirAll(filepath.Dir(p), 0o755)
+				if err := os.Symlink(filepath.Join(dir, "LICENSE"), p); err == nil {
+					contents[p] = mit
+				}
+			}
+		}
 		// two classifications of one file that END on the same line and start on different ones: a
 		// license whose last line also carries a complete one-line header (seen with -headers)
 		{
